@@ -327,6 +327,21 @@ static void run_tree(Tree *t) {
 			/* refusal in the middle of a carry chain / behind a processor: exercised by the 'carry' and 'leak' modes */
 			vh_count("deferred_to_carry_mode", 1); continue;
 		}
+		if ((unsigned)t->seed % 6u == 0 && ((unsigned)t->seed / 6u + (unsigned)i * 7u) % 8u == 0 && ok_level) {
+			/* an extra leaf that cannot be added for another reason than its level: a metadata record too large to be serialized (client id and machine id
+			 * of 40000 + 30000 characters). It has to be refused - with whatever has been hashed for it discarded - and the tree goes on as if it had never been offered */
+			static char big[40001]; KSI_MetaData *md = NULL; KSI_Utf8String *s1 = NULL, *s2 = NULL; KSI_TreeLeafHandle *hh = NULL; int rx;
+			if (!big[0]) memset(big, 'm', sizeof big - 1);
+			if (KSI_MetaData_new(ctx, &md) == KSI_OK && KSI_Utf8String_new(ctx, big, 40001, &s1) == KSI_OK && KSI_Utf8String_new(ctx, big + 10000, 30001, &s2) == KSI_OK) {
+				KSI_MetaData_setClientId(md, s1); KSI_MetaData_setMachineId(md, s2);
+				rx = KSI_TreeBuilder_addMetaData(b, md, l->level, &hh);
+				if (rx == KSI_OK) { vh_count("unserializable_metadata_accepted", 1); KSI_TreeLeafHandle_free(hh); KSI_Utf8String_free(s1); KSI_Utf8String_free(s2); KSI_MetaData_free(md); aborted = 2; break; }
+				vh_count("unserializable_metadata_refused", 1);
+				if (hh) { VIOL(t, 1, "handle-returned-with-error", "unserializable metadata leaf before leaf %d: error %d and a handle", i, rx); }
+				refused++;
+			}
+			KSI_Utf8String_free(s1); KSI_Utf8String_free(s2); KSI_MetaData_free(md);
+		}
 		vh_eval++;
 		if (l->kind == 0) {
 			KSI_DataHash *h = mk_hash(l->ref.d, l->ref.n);
